@@ -45,7 +45,11 @@ type c15cCase struct {
 	Ops    []c15cOp `json:"ops"`
 }
 
-var c15cScheds = []string{"0 0 3 * * * *", "*/5 * * * * * *", "+30m", "+1h", "!2100-01-01T00:00:00Z", "@yearly", "0 0 3 * * * *"}
+var c15cScheds = []string{"0 0 3 * * * *", "*/5 * * * * * *", "+30m", "+1h", "!2100-01-01T00:00:00Z", "@yearly", "0 0 3 * * * *",
+	// schedules that crolt refuses (index 7 on): the rule is then not added, and nothing changes
+	"tomorrow", "0 0 0 1 1 * 2001"}
+
+const c15cFirstBad = 7
 
 func genC15Crolt(t *rapid.T) c15cCase {
 	var c c15cCase
@@ -221,7 +225,20 @@ func runC15Crolt(c c15cCase) *vlib.Outcome {
 			}
 			rule := core.Map{"schedule": c15cScheds[x.Sched], "action": map[string]interface{}{"code": "1"}}
 			if _, err := loc.AddRule(ctx, x.Id, rule); err != nil {
+				if x.Sched >= c15cFirstBad {
+					// refused: the rule that was there (if any) is
+					// still there, and so is its job
+					o.Label("schedule-refused-by-crolt")
+					if wasSched {
+						overwrote = true
+					}
+					break
+				}
 				o.Fail("ADDRULE_ERROR", "%s: %v; requests crolt saw: %v", when, err, seen)
+				return o
+			}
+			if x.Sched >= c15cFirstBad {
+				o.Fail("BAD_SCHEDULE_ACCEPTED", "%s: a rule with the schedule %q, which crolt cannot run, was accepted", when, c15cScheds[x.Sched])
 				return o
 			}
 			if wasSched {
